@@ -8,7 +8,9 @@ EXPLANATION = ("r1: the serialized mirror of DataContext has the same fields wit
                "the set of trace operations the recording adapter can write equals the set the replaying reader "
                "accepts (the readers end in `_ => unreachable!()`, so rustc's exhaustiveness check does not cover "
                "this). r3: the recording adapter forwards the inner adapter's items unchanged (tracing equals direct "
-               "execution).")
+               "execution). r4: replay readers buffer pending inputs first-in-first-out. r5: no RefMut of the tracer is alive "
+               "across a call into the wrapped adapter. r6: the helper iterators run their trace-writing action exactly at the "
+               "pull that calls for it (effect table over four pulls of a two-item iterator) and nothing else runs it (no Drop).")
 ASSUMPTIONS = ["Iterator::inspect does not alter items", "equality of rows as such is not decided"]
 
 INTERP = "trustfall_core::interpreter::"
